@@ -272,11 +272,12 @@ func TestPropSchedule(t *testing.T) {
 }
 
 // TestEnumSweep enumerates sub-spaces completely (no library involved):
-//   A. all 1440x1440 (start,end) pairs without filters, at every window
-//      boundary -1 s, +0, +1 s of a reference day (thorough; quick: a
-//      stride-7 sub-grid);
-//   B. all 128 weekday subsets x a grid of (start,end) x every minute of a
-//      reference week.
+//
+//	A. all 1440x1440 (start,end) pairs without filters, at every window
+//	   boundary -1 s, +0, +1 s of a reference day (thorough; quick: a
+//	   stride-7 sub-grid);
+//	B. all 128 weekday subsets x a grid of (start,end) x every minute of a
+//	   reference week.
 func TestEnumSweep(t *testing.T) {
 	thorough := stats.Tier() == "thorough"
 	shard, nsh := stats.Shard(), stats.NShards()
